@@ -94,6 +94,8 @@ Definition loops : list (string * string * Z) :=
    ("parseHexFloatPrefix", "for i < len(s) && isDigit(s[i])", 0%Z);
    ("parseInputMode", "for _, field := range fields[1:]", 0%Z);
    ("parseOutputMode", "for _, field := range fields[1:]", 0%Z);
+   ("splitBlanks", "for i := 0; i < len(s); i++", 0%Z);
+   ("splitBlanks", "for i := 0; i < len(s); i++", 0%Z);
    ("substrChars", "for start = range s", 0%Z);
    ("substrLengthChars", "for start = range s", 0%Z);
    ("substrLengthChars", "for end = range s[start:]", 0%Z);
